@@ -429,6 +429,8 @@ fn shape(s: &str) -> String {
 struct UserTypes {
     structs: HashMap<String, Vec<(String, String)>>,
     enums: HashMap<String, Vec<(String, Option<String>)>>,
+    /// type parameters of a generic sample struct
+    generics: HashMap<String, Vec<String>>,
     defined: std::collections::HashSet<String>, // "Type::Trait::fn"
 }
 static USER: std::sync::OnceLock<UserTypes> = std::sync::OnceLock::new();
@@ -457,6 +459,10 @@ fn rty_coq(t: &str) -> Option<String> {
             if user().structs.contains_key(&t) || user().enums.contains_key(&t) {
                 return Some(t);
             }
+            if t.len() == 1 && t.chars().all(|c| c.is_ascii_uppercase()) {
+                // a type parameter of a generic sample definition
+                return Some(format!("A_{}", t));
+            }
             return None;
         }
     })
@@ -464,6 +470,9 @@ fn rty_coq(t: &str) -> Option<String> {
 
 /// the Coq type of `self` in an impl for a non-record type
 fn self_ty_coq(imp: &str) -> Option<String> {
+    if let Some(gs) = user().generics.get(imp) {
+        return Some(format!("({} {})", imp, gs.iter().map(|g| format!("A_{}", g)).collect::<Vec<_>>().join(" ")));
+    }
     if user().structs.contains_key(imp) || user().enums.contains_key(imp) {
         return Some(imp.to_string());
     }
@@ -3070,6 +3079,10 @@ fn main() {
                                 let n = fld.ident.as_ref().map(|x| x.to_string()).unwrap_or_else(|| format!("f{}", i));
                                 fs.push((n, tokens_full(&fld.ty).replace(' ', "")));
                             }
+                            let gs: Vec<String> = st.generics.type_params().map(|tp| tp.ident.to_string()).collect();
+                            if !gs.is_empty() {
+                                u.generics.insert(st.ident.to_string(), gs);
+                            }
                             u.structs.insert(st.ident.to_string(), fs);
                             derive_order.push(st.ident.to_string());
                         }
@@ -3270,10 +3283,21 @@ fn main() {
             }
             if ok {
                 records.insert(name.clone(), cfs.iter().map(|(f, _)| f.clone()).collect());
-                let _ = writeln!(out_d, "Record {} := {{ {} }}.", name, cfs.iter().map(|(f, t)| format!("{}_{} : {}", name, f, t)).collect::<Vec<_>>().join("; "));
+                let gs = user().generics.get(name).cloned().unwrap_or_default();
+                let gdecl = gs.iter().map(|g| format!(" (A_{} : Type)", g)).collect::<String>();
+                let gimpl = gs.iter().map(|g| format!(" {{A_{}}}", g)).collect::<String>();
+                let gimpl_decl = gs.iter().map(|g| format!(" {{A_{} : Type}}", g)).collect::<String>();
+                let applied = if gs.is_empty() { name.clone() } else { format!("({}{})", name, gs.iter().map(|g| format!(" A_{}", g)).collect::<String>()) };
+                let _ = writeln!(out_d, "Record {}{} := {{ {} }}.", name, gdecl, cfs.iter().map(|(f, t)| format!("{}_{} : {}", name, f, t)).collect::<Vec<_>>().join("; "));
+                if !gs.is_empty() {
+                    for (f, _) in &cfs {
+                        let _ = writeln!(out_d, "Arguments {}_{}{}.", name, f, gimpl);
+                    }
+                    let _ = writeln!(out_d, "Arguments Build_{}{}.", name, gimpl);
+                }
                 for (f, t) in &cfs {
                     let parts: Vec<String> = cfs.iter().map(|(g, _)| if g == f { format!("{}_{} := v", name, g) } else { format!("{}_{} := {}_{} r", name, g, name, g) }).collect();
-                    let _ = writeln!(out_d, "Definition set_{}_{} (r : {}) (v : {}) : {} := {{| {} |}}.", name, f, name, t, name, parts.join("; "));
+                    let _ = writeln!(out_d, "Definition set_{}_{}{} (r : {}) (v : {}) : {} := {{| {} |}}.", name, f, gimpl_decl, applied, t, applied, parts.join("; "));
                 }
                 out_d.push('\n');
                 rec_types.push((name.clone(), cfs));
@@ -3482,7 +3506,8 @@ fn main() {
                     has_self = true;
                     mut_self = r.mutability.is_some() && r.reference.is_some();
                     if records.contains_key(&base) {
-                        params.push(format!("(self : {})", base));
+                        let t = if user().generics.contains_key(&base) { force_type_param = true; self_ty_coq(&base).unwrap_or(base.clone()) } else { base.clone() };
+                        params.push(format!("(self : {})", t));
                     } else {
                         match self_ty_coq(imp_key).or_else(|| if imp_key == "T" && dict_params.iter().any(|d| d == "T") { Some("A_T".to_string()) } else { None }) {
                             Some(t) => {
